@@ -494,6 +494,9 @@ def main() -> int:
     except Unsupported as e:
         print(f"gen_translate: source outside the translated fragment: {e}", file=sys.stderr)
         return 3
+    except Exception as e:  # noqa: BLE001  (an AST shape the translator does not know: the same verdict, never a pass)
+        print(f"gen_translate: source outside the translated fragment (translator error {type(e).__name__}: {e})", file=sys.stderr)
+        return 3
     if OUT.exists() and OUT.read_text() == text:
         print("gen_translate: unchanged")
     else:
